@@ -75,6 +75,17 @@ def classify_numeric_string(s, lo=0, hi=U256_MAX):
         return ("accept", v) if canonical else ("either", v)
     if s == "" or body == "" or s in ("0x", "-0x", "-"):
         return ("reject", "empty")
+    t = s.strip(" \t\n\r\f\v")
+    if t != s:
+        # white space around a number: the property does not say whether it is tolerated; if it is, the value is the number's
+        if t == "":
+            return ("reject", "empty")
+        k, val = classify_numeric_string(t, lo, hi)
+        if k in ("accept", "either"):
+            return ("either", val)
+        if k == "reject" and val == "range":
+            return ("either-reject-preferred", None)
+        return (k, val)
     if re.match(r"[+-]?0[xX][+\-]", s):
         return ("reject", "not-a-number")  # a sign after the prefix: 0x+a, 0x-1
     if re.match(r"0x[0-9a-fA-F]*[+\-. ][0-9a-fA-F+\-. ]*\Z", s) or re.match(r"[0-9]+[ _]*[a-zA-Z]{2,}[0-9]*\Z", s) or \
@@ -128,6 +139,8 @@ def selftest():
     assert s("0x+a") == ("reject", "not-a-number") and s("0x-1") == ("reject", "not-a-number") and s("0x+") == ("reject", "not-a-number")
     assert s("1 ether")[0] == "reject" and s("30gwei")[0] == "reject" and s("0x10gwei")[0] == "reject" and s("1.5 ether")[0] == "reject"
     assert s("0x" + "0" * 31 + "+" + "1" * 32)[0] == "reject" and s("0x12 34")[0] == "reject" and s("1e3")[0] == "either" and s("1e18")[0] == "either"
+    assert s("0x12 ") == ("either", 0x12) and s(" 0x12") == ("either", 0x12) and s("\t7\n") == ("either", 7) and s(" ")[0] == "reject"
+    assert s(" 1.5")[0] == "reject" and s(" -1 ")[0] == "reject" and s(" " + str(2**256))[0] == "either-reject-preferred" and s("0x1 2")[0] == "reject"
     assert s("+5") == ("either", 5) and s("007") == ("either", 7) and s("0b101") == ("either", 5)
     assert s("0o17") == ("either", 15) and s("1e3")[0] == "either" and s(" 5")[0] == "either"
     assert s("-5", lo=-128, hi=127) == ("accept", -5) and s("-0x80", lo=-128, hi=127) == ("accept", -128)
